@@ -10,7 +10,12 @@ open Parsley Parsley.Obj Parsley.Spelling Parsley.DocSpec Driver Driver.C03
       4    generations may change on redefinition / free            (known finding #29 where it bites)
       5    object-stream members may be redefined or freed later     (known finding #30 where it bites)
       6    one /Prev is replaced by: the section itself, a newer section (cycle), an offset >= file size
-      7    one /Prev skips over revisions (points at an older section): the skipped revisions do not count -/
+      7    one /Prev skips over revisions (points at an older section): the skipped revisions do not count
+      big  <hex> <seed> <variant>   purpose-built two-revision histories with LARGE object numbers that agree with small
+           ones modulo 65536 (5 / 65541, 7 / 196615) or whose generation exceeds 65535 (11 65536 next to 12 0): every
+           identifier is its own object - variant%4: 0 the update adds the large ones, 1 both in the base revision and
+           the update redefines a small one, 2 generation 65536 in a cross-reference-stream base, 3 large ones in the
+           base and the update adds the small ones -/
 
 /-- the revisions of a history, all /Prev automatic -/
 def genRevs (seed variant maxRevs : Nat) : List Rev × Bytes × Bool × Rng :=
@@ -63,6 +68,33 @@ def genHist (seed variant : Nat) (maxRevs : Nat) : Scene :=
       chain := some (List.range (t + 1) ++ [n - 1]) }
   else auto
 
+/-- purpose-built histories with identifiers that differ only above bit 16 of the number (or in bit 16 of the
+    generation); sections are classic tables or cross-reference streams at random -/
+def genBig (seed variant : Nat) : Scene :=
+  let r := Rng.mk' (seed * 8191 + variant * 7 + 11)
+  let (garbage, r) := rndGarbage r
+  let (bin, r) := r.nat 2
+  let mk (r : Rng) (nums : List (Nat × Nat)) : List DObj × Rng :=
+    nums.foldl (fun (acc : List DObj × Rng) ng => let (o, r) := rndValObj acc.2 ng.1 ng.2; (acc.1 ++ [o], r)) ([], r)
+  let fam := variant % 4
+  let (baseNums, updNums, root) : List (Nat × Nat) × List (Nat × Nat) × DocSpec.ObjId :=
+    match fam with
+    | 0 => ([(5, 0), (7, 0), (9, 0)], [(65541, 0), (196615, 0)], (5, 0))
+    | 1 => ([(5, 0), (65541, 0), (7, 0), (196615, 0), (9, 0)], [(5, 0)], (9, 0))
+    | 2 => ([(5, 0), (11, 65536), (12, 0)], [(65541, 0)], (5, 0))
+    | _ => ([(65541, 0), (196615, 0), (3, 0)], [(5, 0), (7, 0)], (3, 0))
+  let (k0, r) := if fam == 2 then (1, r) else r.nat 2
+  let (k1, r) := r.nat 2
+  let (bo, r) := mk r baseNums
+  let (bo, r) := shuffleL bo r
+  let (uo, r) := mk r updNums
+  let (uo, r) := shuffleL uo r
+  let (l0, r) := rndLay r k0 20 65535
+  let (l1, _) := rndLay r k1 21 65535
+  let base : Rev := { objs := bo, members := [], frees := [], zero := true, root, lay := l0 }
+  let upd : Rev := { objs := uo, members := [], frees := [], zero := false, root, lay := l1 }
+  ⟨garbage, bin == 1, [(base, .auto), (upd, .auto)], some [0, 1]⟩
+
 def maxRevsOf (variant : Nat) : Nat := if variant ≥ 1000 then 7 else 3
 
 def judge (case impl : String) : String :=
@@ -83,6 +115,10 @@ def judge (case impl : String) : String :=
         let cls := if cls == "wrong-load" then "wrong-merge" else cls
         s!"bad {cls} " ++ " ".intercalate ((v.splitOn " ").drop 2)
       else v
+    | ["w0", hex, seed, variant] => Driver.C03.judgeW0 seed.toNat! variant.toNat! hex impl   -- one-revision histories, see Driver/C03.lean
+    | ["big", hex, seed, variant] =>
+      let v := judgeScene (genBig seed.toNat! variant.toNat!) hex impl
+      if v.startsWith "bad wrong-load" then "bad wrong-merge " ++ " ".intercalate ((v.splitOn " ").drop 2) else v
     | _ => "skip"
 
 /-- quick: histories of up to 4 revisions; thorough: variants ≥ 1000 allow up to 8 -/
@@ -96,10 +132,20 @@ def gen (seed n : Nat) (tier : String) (emit : String → IO Unit) : IO Unit := 
     if k % 3 == 0 then
       let (mb, _) := mutate bytes (Rng.mk' (s + 23))
       emit s!"mut {hexOfBytes mb}"
+    if k % 8 == 3 then
+      let bg := genBig s (k / 8)
+      let (bb, _, _, _) := render bg
+      emit s!"big {hexOfBytes bb} {s} {k / 8}"
+    -- one-revision histories whose cross-reference stream has no type field (/W [0 n m]), plain and hybrid
+    if k % 16 == 5 then
+      let (wb, _) := Driver.C03.w0Bytes s (k / 16)
+      emit s!"w0 {hexOfBytes wb} {s} {k / 16}"
 
 def nontrivial (line : String) : Bool :=
   match words line with
   | "hist" :: hex :: _ => hex.length ≥ 1000
+  | "big" :: _ => true
+  | "w0" :: _ => true
   | "exp" :: _ => true
   | "mut" :: hex :: _ => hex.length ≥ 400
   | _ => false
